@@ -22,6 +22,7 @@ Lines (tab separated, after `seq`):
   lq.depositAndFarm app user pool dx dy ax ay pc ext <outcome>
   lq.unfarmAndWithdraw app user pool amt x y ext <outcome>
   lq.bb      app
+  lq.migrate <outcome>                      the REAL `Migrator.Migrate1to2` on a store re-encoded in the version-1 layout
   lq.eb      app matches deps wdrs <outcome>
                  matches = pair/fills/flows/dust/last|…   fill = id:buy:paid:recv:matched   flow = pool:buy:paid:recv
                            last = the pair's LastPrice after the batch (raw) or "-"
@@ -32,7 +33,8 @@ Lines (tab separated, after `seq`):
 outcome ∈ ok err panic; only ok / not-ok is compared.  At every `liq.state` line the model state is compared
 with the real projection (DIFF) and the monitors of the property named in `liq.begin` are evaluated on the REAL
 projection (MON).  Monitor names: C04 — escrow_requests pair_escrow farm_custody zero_supply_disabled
-poolcoin_supply repo_invariants; C07 — taken_exact settled_exact cancellable mm_cancel_all cancel_all_cancels_all.
+poolcoin_supply repo_invariants; C07 — taken_exact settled_exact cancellable mm_cancel_all cancel_all_cancels_all
+mm_index_complete; both — migration_identity.
 -/
 -- DRIVER: prefix=lq ns=Comdex.Drv.LiqLedger
 namespace Comdex.Drv.LiqLedger
@@ -261,6 +263,7 @@ def pOp (f : List String) : Option (Op × String) :=
   | ["lq.unfarmAndWithdraw", a, u, p, n, x, y, e, o] => do
     pure (.unfarmAndWithdraw (← pNat a) (← pNat u) (← pNat p) (← pNat n) (← pNat x) (← pNat y) (← pBool e), o)
   | ["lq.bb", a] => do pure (.beginBlock (← pNat a), "ok")
+  | ["lq.migrate", o] => some (.migrate, o)
   | ["lq.eb", a, ms, ds, ws, o] => do pure (.endBlock (← pNat a) (← pMatches ms) (← pDepIns ds) (← pWdrIns ws), o)
   | _ => none
 
@@ -489,9 +492,32 @@ def monCancelAll (cfg : Cfg) (prev cur : State) (op : Option Op) (ok : Bool) : B
       else true
   | _ => true
 
+/-- the store migration is the identity on the projection, up to the order type (→ limit) and the pool type (→ basic):
+in particular every order keeps offer / REMAINING offer / received / open amount / status / batch / expiry, no coin moves -/
+def monMigration (prev cur : State) (op : Option Op) (ok : Bool) : Bool :=
+  match op with
+  | some .migrate =>
+    ok &&
+    bankLe prev.bank cur.bank && bankLe cur.bank prev.bank &&
+    prev.pairs == cur.pairs && prev.deps == cur.deps && prev.wdrs == cur.wdrs && prev.mm == cur.mm && prev.farmers == cur.farmers &&
+    prev.orders.map (fun o => { o with typ := OType.limit }) == cur.orders.map (fun o => { o with typ := OType.limit }) &&
+    cur.orders.all (fun o => o.typ == .limit) &&
+    prev.pools.map (fun q => { q with ranged := false }) == cur.pools
+  | _ => true
+
+/-- index completeness on the REAL records: order keys are unique, and every live market-making order is listed in the
+real MM index of its owner for its (app, pair) -/
+def monIndexComplete (r : State) : Bool :=
+  (r.orders.map Order.key).eraseDups.length == r.orders.length &&
+  r.orders.all fun o => !(o.typ == .mm && o.status.live) ||
+    match findBy (isMM o.app o.pair o.owner) r.mm with
+    | none => false
+    | some idx => idx.ids.contains o.id
+
 def monitors (st : St) (cur : State) : List String :=
   let prev := st.real
   let m (name : String) (b : Bool) : List String := if b then [] else [name]
+  (if st.haveReal then m "migration_identity" (monMigration prev cur st.lastOp st.lastOk) else []) ++
   if st.prop = "C04" then
     m "escrow_requests" (monEscrowRequests cur) ++ m "pair_escrow" (monPairEscrow cur) ++ m "farm_custody" (monFarmCustody cur)
     ++ m "zero_supply_disabled" (monZeroSupply cur)
@@ -505,6 +531,7 @@ def monitors (st : St) (cur : State) : List String :=
     ++ m "cancellable" (monCancellable st.cfg prev st.lastOp st.lastOk)
     ++ m "mm_cancel_all" (monMMCancelAll prev cur st.lastOp st.lastOk)
     ++ m "cancel_all_cancels_all" (monCancelAll st.cfg prev cur st.lastOp st.lastOk)
+    ++ m "mm_index_complete" (monIndexComplete cur)
 
 /-! ### line handler -/
 
